@@ -91,6 +91,10 @@ def handle : Handler := fun op a =>
       let s ← a.nats "shape"
       let pw ← a.nats "pad_width"
       pure (optShape (pad s pw))
+  | "k9_matmul" => orBad do
+      let s ← a.nats "ashape"
+      let t ← a.nats "bshape"
+      pure (optShape (matmulShape s t))
   | "k9_slice" => orBad do
       let s ← a.nats "shape"
       let s0 ← (a.get? "s0").bind parseSlice
